@@ -28,9 +28,18 @@ def classify(rej):
     had_send = any(x["op"] == "send" and x["sid"] == recd["sid"] and x["items"] for x in prior)
     if recd["items"][0] != start or not had_send:
         return None
-    sids = sorted({x["sid"] for x in prior if x["op"] == "request"})
-    zero = any(x["op"] == "request" and x["chunks"] == 0 for x in prior)
-    return "resumable-session-restarted:%s" % ("after-zero-chunk-requests" if zero and len(sids) <= 3 else "three-held-none-opened")
+    reqs = [x for x in prior if x["op"] == "request"]
+    sids = sorted({x["sid"] for x in reqs})
+    first = {}
+    for x in reqs:
+        first.setdefault(x["sid"], x["chunks"])
+    # a session that was opened by a request for no chunks and requested again later
+    zero = any(first[sid] == 0 and sum(1 for x in reqs if x["sid"] == sid) > 1 for sid in sids)
+    if zero:
+        return "resumable-session-restarted:after-zero-chunk-requests"
+    if len(sids) >= 3:
+        return "resumable-session-restarted:three-held-none-opened"
+    return "resumable-session-restarted"
 
 
 def replay(c):
